@@ -11,6 +11,7 @@ Oracles are kept apart as DESIGN 2.1 demands: the *state oracle* (result of the 
 contents vs model, independence of instances) stops the expansion of a diverged state; *read oracles* do not.
 """
 import itertools
+import os
 import signal
 
 from mc import core, histories, inputs
@@ -283,6 +284,7 @@ class OtoSpec:
                 m += [(s, 'del', k), (s, 'pop', k), (s, 'popd', k, 'D'), (s, 'setdefault', k)]
                 for v in DOM:
                     m.append((s, 'setdefaultd', k, v))
+                    m.append((s, 'popd', k, v))      # a default that may be the very object stored under k
             m += [(s, 'popitem'), (s, 'clear'), (s, 'copy'), (s, 'ctor_oto'), (s, 'update_self'), (s, 'update_inv')]
             for l in lists:
                 m.append((s, 'update_pairs', l))
@@ -1386,6 +1388,51 @@ def fd_mixed_shard(arg):
     return t
 
 
+# A FrozenDict pickled by one interpreter and loaded by another (different str hash seed) must hash like an equal
+# FrozenDict built locally: "equal FrozenDicts have equal hashes", "pickle returns equal values".
+XPROC_WRITER = r'''
+import sys, pickle
+sys.path.insert(0, sys.argv[1])
+from boltons.dictutils import FrozenDict
+out = []
+for hashed_first in (False, True):
+    for proto in range(pickle.HIGHEST_PROTOCOL + 1):
+        for items in ([("a", 1)], [("a", "b"), ("c", "d")], [(1, "x"), ("y", 2), (None, (0,))], []):
+            fd = FrozenDict(items)
+            if hashed_first:
+                hash(fd)
+            out.append((hashed_first, proto, items, pickle.dumps(fd, proto)))
+sys.stdout.buffer.write(pickle.dumps(out))
+'''
+
+
+def fd_cross_process(ctx):
+    import pickle
+    import subprocess
+    import sys
+    from boltons.dictutils import FrozenDict
+    t = inputs.Tally()
+    for seed in ('123', '987'):
+        p = subprocess.run([sys.executable, '-c', XPROC_WRITER, core.repo_root()], capture_output=True,
+                           env=dict(os.environ, PYTHONHASHSEED=seed), timeout=120)
+        if p.returncode != 0:
+            raise RuntimeError('cross-process writer failed: %s' % p.stderr.decode()[-300:])
+        for hashed_first, proto, items, blob in pickle.loads(p.stdout):
+            case = {'kind': 'frozen-xproc', 'items': [list(i) for i in items], 'protocol': proto,
+                    'hashed_before_pickling': hashed_first, 'writer_hash_seed': seed}
+            t.count(nontrivial=bool(items), sample=case)
+            got = pickle.loads(blob)
+            local = FrozenDict(items)
+            if got != local or dict(got) != dict(items):
+                t.bad('C17|frozen:pickle-across-processes|value', case, repr(local), repr(got))
+            elif hash(got) != hash(local) or got not in {local}:
+                t.bad('C17|frozen:pickle-across-processes|equal-FrozenDicts-hash-differently', case, hash(local), hash(got))
+    total = inputs.run_shards(ctx, lambda _a: t, [0], part='frozendict-pickle-across-processes', procs=1, rule=(
+        'FrozenDicts pickled (every protocol, hash computed or not before pickling) in interpreters with other hash seeds, '
+        'loaded here: equal to and hashing like a locally built one'))
+    return total
+
+
 # ======================================================================================================
 # run / replay
 # ======================================================================================================
@@ -1420,6 +1467,7 @@ def run(ctx):
     inputs.run_shards(ctx, fd_mixed_shard, [(i, 8, 3 if quick else 4) for i in range(8)], part='frozendict-mixed-keys',
                       rule='every key set of <= %d keys out of %r in every insertion order: equality and hash'
                            % (3 if quick else 4, MIXED_KEY_CODES))
+    fd_cross_process(ctx)
     cov['bounds'] = {'OneToOne/ManyToMany': {'keys': list(DOM), 'values': list(DOM),
                                              'sides': ['forward', 'inv'], 'search': 'fixpoint'},
                      'FrozenDict': {'keys': list(FD_KEYS), 'values': list(values), 'max_items': 3,
@@ -1441,6 +1489,12 @@ def replay(ctx, data):
     case = data['case']
     kind = case.get('kind') or case['config']['kind']
     msgs = []
+    if kind == 'frozen-xproc':
+        import io as _io
+        t0 = ctx.viol.copy()
+        fd_cross_process(ctx)
+        return ['%s expected=%r observed=%r' % (r['sig'], r['expected'], r['observed'])
+                for k, r in sorted(ctx.viol.items()) if k not in t0]
     if kind == 'frozen-mixed':
         from boltons.dictutils import FrozenDict
         t = inputs.Tally()
